@@ -45,8 +45,9 @@ def bounds(tier, seed):
 
 def cases(tier, seed):
     out = []
-    for h, sch, mode, flow in itertools.product(HS, ["EF", "RK2", "RK4"], ["diff", "w", "both", "both-opposed", "off", "diff+hdiff"], ["stay", "east", "west"]):
-        out.append(dict(mode="plug", h=h, scheme=sch, vmode=mode, flow=flow))
+    deep = dict(deep=True) if tier == "thorough" else {}  # thorough: more depths, more start depths and displacements, four steps
+    for h, sch, mode, flow in itertools.product(HS + ([0.5, 20.0, 300.0] if deep else []), ["EF", "RK2", "RK4"], ["diff", "w", "both", "both-opposed", "off", "diff+hdiff"], ["stay", "east", "west"]):
+        out.append(dict(mode="plug", h=h, scheme=sch, vmode=mode, flow=flow, **deep))
     for h, vm, adv in itertools.product(HS, ["diff", "w", "both"], ["", "EF"]):
         out.append(dict(mode="reshuffle", h=h, vmode=vm, scheme=adv))
     for mode in ("diff", "w", "both"):
@@ -56,16 +57,19 @@ def cases(tier, seed):
     return out
 
 
-def displacements(h):
+def displacements(h, deep=False):
     eps = h * 2.0 ** -10
-    return [0.0, eps, -eps, h / 2, -h / 2, 0.99 * h, -0.99 * h]
+    out = [0.0, eps, -eps, h / 2, -h / 2, 0.99 * h, -0.99 * h]
+    if deep:
+        out += [h / 8, -h / 8, h / 4, -h / 4, 0.75 * h, -0.75 * h, 0.9 * h, -0.9 * h, h - eps, -(h - eps)]
+    return out
 
 
-def plan(hcell, vmode, d):
+def plan(hcell, vmode, d, deep=False):
     """One run = one displacement d for every particle (the generator hands out ONE value per step, so the result does not depend on
     how the tracker draws); particles = start depths. Returns Z0, diffusion part, w part (metres per step)."""
     eps = hcell * 2.0 ** -10
-    Z0 = np.array([0.0, hcell / 4, hcell / 2, hcell - eps, hcell])
+    Z0 = np.array([0.0, hcell / 4, hcell / 2, hcell - eps, hcell] + ([eps, hcell / 8, 0.75 * hcell, hcell - 2 * eps] if deep else []))
     fd, fw = dict(diff=(1, 0), w=(0, 1), both=(0.75, 0.25), off=(0, 0))[vmode] if vmode in ("diff", "w", "both", "off") else ((1, 0) if vmode == "diff+hdiff" else (1.25, -0.25))
     return Z0, np.full(len(Z0), fd * d), np.full(len(Z0), fw * d)
 
@@ -82,7 +86,7 @@ def run_plug(case):
     h0, flow = case["h"], case["flow"]
     hstart = 2 * h0 if dict(stay=3.2, east=4.3, west=5.2)[flow] >= 4.5 else h0
     viols, nt, n = [], 0, 0
-    for d in displacements(hstart):
+    for d in displacements(hstart, bool(case.get("deep"))):
         v, t, m = run_plug_one(case, d)
         nt, n = nt + t, n + m
         for x in v:
@@ -103,7 +107,7 @@ def run_plug_one(case, d):
     mods["grid"] = g = plugin("agrid").Grid(modules=mods, imax=12, jmax=9, dx=100.0, h=h0, hmode="step")  # cells i>=5 are twice as deep
     x0, vx = dict(stay=(3.2, 0.05), east=(4.3, 0.45), west=(5.2, -0.45))[flow]
     hstart = 2 * h0 if x0 >= 4.5 else h0
-    Z0, dd, dw = plan(hstart, vmode, d)
+    Z0, dd, dw = plan(hstart, vmode, d, bool(case.get("deep")))
     n = len(Z0)
     mods["forcing"] = fo = plugin("aforce").Forcing(mods, field="const", params=dict(a=vx / DT, b=0.0, L=100.0), w=list(dw / DT), record=False)
     Dz = 1.0 / (2 * DT)  # sqrt(2 Dz dt) = 1 m per unit normal deviate
@@ -116,7 +120,7 @@ def run_plug_one(case, d):
         kw["diffusion"] = 1e-12
     tr = Tracker(**kw)
     mods["tracker"] = tr
-    tr.rng = rng = scriptrng.Constant([float(dd[0]), float(dd[0])])  # sqrt(2 Dz dt) = 1 m: the value IS the vertical random displacement
+    tr.rng = rng = scriptrng.Constant([float(dd[0])] * 4)  # sqrt(2 Dz dt) = 1 m: the value IS the vertical random displacement
     st.append(X=np.full(n, x0), Y=np.full(n, 4.2), Z=Z0)
     if flow == "stay":
         st["active"][::2] = False  # settled particles: not moved horizontally, but the water column still bounds their depth
@@ -128,7 +132,7 @@ def run_plug_one(case, d):
 
     exp = Z0.copy()
     xs = x0
-    for step in range(2):
+    for step in range(4 if case.get("deep") else 2):
         mods["time"].update()
         fo.update()
         if step:
@@ -199,7 +203,7 @@ def run_reshuffle(case):
         kw["vertical_advection"] = True
     tr = Tracker(**kw)
     mods["tracker"] = tr
-    tr.rng = rng = scriptrng.Constant([float(dd[0]), float(dd[0])])
+    tr.rng = rng = scriptrng.Constant([float(dd[0])] * 4)
     # shallow-cell particles start near their bottom (they pass it), deep-cell particles at mid depth (nobody passes the deepest bottom)
     st.append(X=np.array(xs), Y=np.full(n, 4.2), Z=np.array([0.9 * h if h == h0 else 0.5 * h for h in hs]))
     viols = []
